@@ -30,8 +30,115 @@ ASSUMPTIONS = ["pandas IntervalIndex.get_indexer_for maps interval values to the
 
 
 def run(ctx):
-    for r in (_r1, _r2, _r3, _r4):
+    for r in (_r1, _r2, _r3, _r4, _r5):
         ctx.attempt(r)
+
+
+REORDER = ("sort_values", "sort_index", "sort", "argsort", "reindex", "take", "sortlevel", "sample", "reorder_levels")
+REORDER_FN = ("np.sort", "sorted", "np.unique", "np.flip", "reversed", "np.argsort", "np.roll")
+KEEP = ("unique", "copy", "rename", "set_names", "astype", "to_numpy", "set_closed")
+
+
+def _order_kept(e, params):
+    """('kept', root) if the expression is its root in unchanged order, ('reordered', op) or ('unknown', text)"""
+    while True:
+        if isinstance(e, ast.Name):
+            return ("kept", e.id)
+        if is_self_attr(e):
+            return ("kept", "self." + e.attr)
+        if isinstance(e, ast.Attribute):
+            e = e.value
+            continue
+        if isinstance(e, ast.Subscript):
+            if isinstance(e.slice, ast.Slice) and e.slice.step is not None:
+                return ("reordered", "slice with a step")
+            if not isinstance(e.slice, ast.Slice):
+                return ("unknown", norm_text(e))
+            e = e.value
+            continue
+        if isinstance(e, ast.Call):
+            fn = call_name(e) or ""
+            if fn in REORDER_FN:
+                return ("reordered", fn)
+            if isinstance(e.func, ast.Attribute):
+                if e.func.attr in REORDER:
+                    return ("reordered", "." + e.func.attr + "()")
+                if e.func.attr in KEEP:
+                    e = e.func.value
+                    continue
+            if fn in ("pd.IntervalIndex", "pd.Index", "list", "tuple", "np.asarray") and e.args:
+                e = e.args[0]
+                continue
+            return ("unknown", norm_text(e))
+        return ("unknown", norm_text(e))
+
+
+def _r5(ctx):
+    """Processing order of the R segments.  The diagram validates its R index in the order it was given (ascending with the
+    wrap (1, inf) -> (-inf, 0]); the transformer sorts the segments by distance from the target only, and the two unbounded
+    segments have the same distance, so their relative order - which decides whether pure compression cycles are carried over
+    R = +-inf first - is the validated order.  The index must therefore reach the transformer without being re-ordered."""
+    prog = ctx.prog
+    ctx.rule("R-C12-5", floor=3, what="the validated R segment order reaches the distance sort unchanged (ties keep the validated order)")
+    init = prog.func(MS + ":_SegmentTransformer.__init__")
+    params = [p_ for p_ in init.params if p_ != "self"]
+    st = [s_ for s_ in walk_function(init.node) if isinstance(s_, ast.Assign) and is_self_attr(s_.targets[0], "_R_index")]
+    if len(st) != 1:
+        raise AnalysisError("_SegmentTransformer.__init__: single store of _R_index expected")
+    chain = [(init, st[0], st[0].value)]
+    tr = prog.func(MS + ":HaighDiagram.transform")
+    call = [c for c in calls_in(tr.node) if call_name(c) == "_SegmentTransformer"]
+    if len(call) != 1:
+        raise AnalysisError("transform: construction of the segment transformer not found")
+    val = prog.func(MS + ":HaighDiagram._validate")
+    vst = [s_ for s_ in walk_function(val.node) if isinstance(s_, ast.Assign) and is_self_attr(s_.targets[0], "_R_index")]
+    fr = prog.func(MS + ":HaighDiagram._find_R_index")
+    rets = [s_ for s_ in walk_function(fr.node) if isinstance(s_, ast.Return) and s_.value is not None]
+    kind, what = _order_kept(st[0].value, params)
+    pos = params.index(what) if kind == "kept" and what in params else None
+    if kind == "kept" and pos is not None:
+        ctx.holds(init, st[0], "transformer stores the segments as given (%s)" % what)
+        arg = call[0].args[pos] if pos < len(call[0].args) else None
+        k2, w2 = _order_kept(arg, []) if arg is not None else ("unknown", "?")
+        if k2 == "kept" and w2 == "self._R_index":
+            ctx.holds(tr, call[0], "transform hands over the validated index self._R_index")
+        elif k2 == "reordered":
+            ctx.violated(tr, call[0], "transform re-orders the R index (%s) before the transformer sees it" % w2, text="R order transform")
+        else:
+            raise AnalysisError("transform: segment argument %s not understood" % norm_text(arg) if arg is not None else "missing")
+    elif kind == "reordered":
+        ctx.violated(init, st[0], "the transformer re-orders the R segments (%s) before computing the distances: segments with "
+                     "equal distance from the target (the two unbounded ones) are then processed in another order than the "
+                     "validated one, so cycles are carried over R = +-inf in the wrong sequence" % what, text="R order transformer")
+    else:
+        raise AnalysisError("_SegmentTransformer.__init__: %s not understood" % what)
+    # validated index = index of the object in appearance order
+    locs = {}
+    for s_ in walk_function(fr.node):
+        if isinstance(s_, ast.Assign) and isinstance(s_.targets[0], ast.Name):
+            locs.setdefault(s_.targets[0].id, []).append(s_)
+    bad = None
+    n = 0
+    for r in rets:
+        srcs = [r.value] if not (isinstance(r.value, ast.Name) and r.value.id in locs) else [x.value for x in locs[r.value.id]]
+        for e in srcs:
+            k3, w3 = _order_kept(e, [])
+            n += 1
+            if k3 == "reordered":
+                bad = (r, w3)
+            elif k3 == "unknown":
+                raise AnalysisError("_find_R_index: %s not understood" % w3)
+    if bad:
+        ctx.violated(fr, bad[0], "the R index is re-ordered (%s) when it is extracted from the diagram" % bad[1], text="R order extraction")
+    elif n and vst:
+        ctx.holds(fr, rets[-1], "R index extracted in the order of appearance (%d sources), stored by _validate, checked for gaps in that order" % n)
+    else:
+        raise AnalysisError("_find_R_index / _validate: extraction of the R index not found")
+    # the distance sort is the only ordering applied afterwards, and the two unbounded segments tie
+    d = prog.func(MS + ":_SegmentTransformer._distance_from_R_goal")
+    fills = [c for c in calls_in(d.node) if isinstance(c.func, ast.Attribute) and c.func.attr == "fillna"]
+    if fills:
+        ctx.holds(d, fills[0], "unbounded segments (mid = +-inf) both get the fill value: equal distance, order decided by the index order")
 
 
 def _r1(ctx):
@@ -519,6 +626,24 @@ def variants():
                 return True
         return False
     out.append(witness("one aggregation path bins with pd.cut", MP, cut_path, "R-C12-4"))
+
+    def sorted_segments(tree):
+        f = find_func(tree, "_SegmentTransformer.__init__")
+        for st in f.body:
+            if isinstance(st, ast.Assign) and is_self_attr(st.targets[0], "_R_index"):
+                st.value = parse_expr("R_segments.sort_values()")
+                return True
+        return False
+    out.append(witness("transformer sorts the R segments", MP, sorted_segments, "R-C12-5"))
+
+    def reversed_segments(tree):
+        f = find_func(tree, "HaighDiagram.transform")
+        for c in calls_in(f):
+            if call_name(c) == "_SegmentTransformer":
+                c.args[2] = parse_expr("self._R_index[::-1]")
+                return True
+        return False
+    out.append(witness("transform hands over the reversed index", MP, reversed_segments, "R-C12-5"))
 
     # twins
     def shift_rewritten(tree):
